@@ -1877,6 +1877,24 @@ def declared_classes(name, fn, use, depth=0):
             out |= elem_classes(p.iter, scope, depth + 1)
         elif isinstance(p, ast.Assign) and s._field == "targets":
             out |= classes_of(p.value, scope, None, depth + 1)
+        elif isinstance(p, ast.Tuple) and isinstance(p._parent, ast.Assign) and p._field == "targets" and \
+                not any(isinstance(e, ast.Starred) for e in p.elts):
+            # a, b = (x, y)   /   a, b = helper(..) whose returns are tuple literals
+            v = p._parent.value
+            if isinstance(v, ast.Tuple) and len(v.elts) == len(p.elts):
+                c = classes_of(v.elts[s._idx], scope, None, depth + 1)
+            elif isinstance(v, ast.Call) and _tuple_return_elts(v, scope, len(p.elts)):
+                c = set()
+                for elts, g in _tuple_return_elts(v, scope, len(p.elts)):
+                    ci = classes_of(elts[s._idx], g, elts[s._idx], depth + 1)
+                    if not ci:
+                        return set()
+                    c |= ci
+            else:
+                return set()
+            if not c:
+                return set()
+            out |= c
         else:
             return set()
     return out
@@ -1891,7 +1909,7 @@ def elem_classes(it, fn, depth=0):
         if isinstance(f, ast.Attribute):
             if f.attr == "values" and table_of(f.value):
                 return {sm.tables[table_of(f.value)]}
-            if f.attr not in BUILTIN_METHODS:
+            if f.attr not in BUILTIN_METHODS and sm.method_elem(f.attr):
                 return sm.method_elem(f.attr)
         if isinstance(f, ast.Name) and f.id in ("list", "sorted", "tuple", "reversed") and it.args:
             return elem_classes(it.args[0], fn, depth + 1)
